@@ -20,13 +20,14 @@ from ..sexp import Sym, dumps, line as sx
 META = dict(
     text="Lean theorems (PPProofs/Props/C10.lean) prove, for ALL value types, ALL states satisfying PRInv (unique keys, "
          "no empty occurrence list; established by the constructor and kept by every operation: prinv_of_ctor, "
-         "prinv_of_reinit, prinv_step) and ALL finite histories of the 31 modelled operations, that the transcribed "
+         "prinv_of_reinit, prinv_step; reinit_refines: naming an existing result adds one value and keeps all other names and list-all flags) and ALL finite histories of the 31 modelled operations, that the transcribed "
          "ParseResults refines a plain list + ordered multimap + list-all set (refines_step, refines_history: same "
          "abstract state and same return value / exception class after every step), full strength on the model; "
          "corollaries list_ops_keep_names (= del_insert_keep_names; del/insert/pop/append/extend/slice-assign never "
-         "change any named value, key order or list-all flag) and unknown_attr_empty. The exact side condition of "
-         "`+=`/extend(ParseResults) is pinned (iadd_refines_iff: other truthy or its list-all names already list-all "
-         "in self; otherwise iadd_falsy_shortcut_deviates, registered finding iadd_falsy_other_drops_listall). "
+         "change any named value, key order or list-all flag) and unknown_attr_empty. `+=`/extend(ParseResults) is "
+         "the merge for every well-formed argument, empty or not (iadd_is_merge; the only hypothesis on a history is "
+         "that ParseResults arguments are themselves well-formed objects); iadd_falsy_keeps_listall is the regression "
+         "witness of the fixed finding iadd_falsy_other_drops_listall (pyparsing 448d339). "
          "`in` is name membership, not list membership (contains_is_not_list_membership: the literal list reading of "
          "`in` in the statement is false, documented behaviour). The model is tied to the code by per-step "
          "differential histories on every run; a Python list+multimap oracle independent of Lean decides failing inputs.",
@@ -45,11 +46,12 @@ THEOREMS = [
     "PP.PR.refines_history",
     "PP.PR.prinv_of_ctor",
     "PP.PR.prinv_of_reinit",
+    "PP.PR.reinit_refines",
     "PP.PR.list_ops_keep_names",
     "PP.PR.del_insert_keep_names",
     "PP.PR.unknown_attr_empty",
-    "PP.PR.iadd_refines_iff",
-    "PP.PR.iadd_falsy_shortcut_deviates",
+    "PP.PR.iadd_is_merge",
+    "PP.PR.iadd_falsy_keeps_listall",
     "PP.PR.contains_is_not_list_membership",
 ]
 
@@ -188,8 +190,6 @@ def gen_op(rng, pp, r, attr_ok):
                 other = prlib.build_start(pp, o)
             except prlib.ERRS:
                 continue
-            if prlib.other_in_shortcut_region(pp, r, other):
-                continue      # registered finding: generators stay out of its region
             return [k, o]
         return ["len"]
     return [k]
@@ -299,6 +299,14 @@ SHORTCUT_WITNESS = {
 
 # fixed histories that always run (also through the model): the witnesses of the theorems
 FIXED = [
+    # iadd_falsy_keeps_listall (fixed finding iadd_falsy_other_drops_listall), directly and through a grammar
+    {"start": {"ctor": [{"list": [{"s": "b"}]}, "x", False, True]},
+     "ops": [["iadd", {"ctor": [{"list": []}, "x", True, False]}], ["getname", "x"], ["items"]]},
+    {"start": {"parse": ["optstar", "a"]}, "ops": [["getname", "x"], ["extendpr", {"parse": ["emptynamed", ""]}],
+                                                      ["setname", "o", {"s": "v"}], ["getname", "o"]]},
+    # ParseResults(existing, name*, ...) keeps the other list-all names (pyparsing aa3fe24)
+    {"start": {"reinit": [{"parse": ["listall", "a 0 b"]}, "w", True, False]}, "ops": [["getname", "x"], ["getname", "w"]]},
+    {"start": {"parse": ["starwrap", "a b"]}, "ops": [["getname", "x"], ["getname", "y"], ["items"]]},
     # contains_is_not_list_membership: a token that is not a name is not `in` the result
     {"start": {"ctor": [{"list": [{"s": "a"}]}, None, True, True]},
      "ops": [["contains", "a"], ["setname", "a", {"s": "v"}], ["contains", "a"], ["get", "a"], ["popname", "a", {"s": "d"}],
@@ -331,18 +339,18 @@ def run(ctx):
         "calls (None/list/str/int toklist x name x asList x modal) | ParseResults(existing, name, ...); arguments hit "
         "negative / out-of-range indices, slices with steps (incl. 0), missing names, defaults, nested values; "
         "non-trivial = history contains a mutating operation and the object has at least one name at some step; "
-        f"generators stay out of the region of the registered finding {KNOWN_SIG} (falsy `other` carrying list-all "
-        "names that self lacks) — only its witness is replayed")
+        f"the region of the fixed finding {KNOWN_SIG} (falsy `other` carrying list-all names that self lacks) is "
+        "generated like any other; its witness runs as an ordinary regression case")
     # ---- corpus + registered witness ------------------------------------------------------------------
     n_corpus = 0
     for name, case in corpus_cases():
         n_corpus += 1
         if oracle_check(pp, case) is not None:
             report(ctx, pp, case, signature=case.get("signature"))
-    bad = oracle_check(pp, SHORTCUT_WITNESS)
+    bad = oracle_check(pp, SHORTCUT_WITNESS)      # fixed finding: an ordinary regression case now
     if bad is not None:
         ctx.fail_input("`r += other` ignores a falsy other that carries list-all names", SHORTCUT_WITNESS,
-                       bad[1], bad[2], theorem="PP.PR.iadd_falsy_shortcut_deviates", signature=KNOWN_SIG)
+                       bad[1], bad[2], theorem="PP.PR.iadd_falsy_keeps_listall")
     # `in` is name membership (documented); the literal list reading is false — recorded, not a violation
     ctx.notes["contains_is_name_membership"] = {"'a' in ParseResults(['a'])": ("a" in PR(["a"]))}
     # unknown attribute -> '' (hypothesis of unknown_attr_empty: the name is not an attribute of the class)
